@@ -5,6 +5,7 @@ import (
 	"math"
 	"strconv"
 	"strings"
+	"unicode/utf8"
 
 	"pgregory.net/rapid"
 )
@@ -154,9 +155,11 @@ func FloatLit(t *rapid.T) string {
 var strAlphabet = []string{
 	"a", "b", "z", "A", "0", "7", " ", " ", "\t", "#", ";", "(", ")", "{", "}", "=", "-", ">", "/", "*",
 	"\"", "\\", "\n", "\r", "'", " ", "\u0085", "é", "ß", "日", "😀", "\x00", "\x7f", "_", ":", "var", "def", "nil", ".", ".", "a.b",
+	// format verbs (text that must never be used as a format) and bytes that are not UTF-8
+	"%", "%s", "%d", "%%", "%!", "\xff", "\x80", "\xc3",
 }
 
-// StrValue draws a string value (valid UTF-8) over an alphabet rich in the
+// StrValue draws a string value (mostly valid UTF-8) over an alphabet rich in the
 // characters that are layout outside of strings.
 func StrValue(t *rapid.T, maxParts int) string {
 	if Chance(t, 4, "lookalike") {
@@ -192,7 +195,20 @@ func StrLit(t *rapid.T, s string) string {
 	plain := Chance(t, 50, "plainstr")
 	var sb strings.Builder
 	sb.WriteByte('"')
-	for _, r := range s {
+	for i := 0; i < len(s); {
+		r, w := utf8.DecodeRuneInString(s[i:])
+		if r == utf8.RuneError && w == 1 {
+			// a byte that is not UTF-8: only a byte escape denotes it (written
+			// raw it would be read as U+FFFD)
+			if Bool(t, "octal") {
+				fmt.Fprintf(&sb, `\%03o`, s[i])
+			} else {
+				fmt.Fprintf(&sb, `\x%02x`, s[i])
+			}
+			i++
+			continue
+		}
+		i += w
 		mustEscape := r == '"' || r == '\\' || r == '\n'
 		if !mustEscape && (plain || Chance(t, 70, "raw")) {
 			sb.WriteRune(r)
